@@ -97,6 +97,8 @@ macro_rules! short_harness {
 short_harness!(c14_write_frame_short_write_magic, 0);
 // @verif prop=C14 id=O14.1b/cdata tier=quick harness=c14_write_frame_short_write_cdata unwind=4 bound="same frame; sink call 11 (cdata) accepts only 1 byte" fns="write_frame,Write::write_all"
 short_harness!(c14_write_frame_short_write_cdata, 11);
+// @verif prop=C14 id=O14.1b/crc tier=quick harness=c14_write_frame_short_write_crc unwind=4 bound="same frame; sink call 12 (CRC32, first trailer word) accepts only 1 byte" fns="write_frame,write_trailer,Write::write_all"
+short_harness!(c14_write_frame_short_write_crc, 12);
 // @verif prop=C14 id=O14.1b/isize tier=quick harness=c14_write_frame_short_write_isize unwind=4 bound="same frame; sink call 13 (ISIZE) accepts only 1 byte" fns="write_frame,Write::write_all"
 short_harness!(c14_write_frame_short_write_isize, 13);
 
@@ -119,5 +121,7 @@ macro_rules! interrupt_harness {
         }
     };
 }
+// @verif prop=C14 id=O14.1c/12 tier=quick harness=c14_write_frame_interrupted_at_12 unwind=4 bound="same; Interrupted at call 12 (first trailer word)" fns="write_frame,write_trailer,Write::write_all"
+interrupt_harness!(c14_write_frame_interrupted_at_12, 12);
 // @verif prop=C14 id=O14.1c/11 tier=quick harness=c14_write_frame_interrupted_at_11 unwind=4 bound="same; Interrupted at call 11 (cdata)" fns="write_frame,Write::write_all"
 interrupt_harness!(c14_write_frame_interrupted_at_11, 11);
